@@ -812,6 +812,22 @@ theorem cdna3_runVCmpFU64_conforms (n : String) :
     show setBit r.acc r.i ((0#64).getLsbD r.i) = _
     simp [cmpU_f])
 
+/-- **the lane view `constLane` is what the handler does**: `cdna3.ALU.runVCmpFU64` never panics and hands 0 to `SetVCC`
+    (C06's `noLaneRun` of the regenerated record), and the lane view started from the accumulator 0 stays 0 at every
+    lane — so folding it over any set of active lanes yields exactly that constant -/
+theorem cdna3_runVCmpFU64_lane_view (u : Uni) (vcc : BitVec 64) (r : RawIn) (h : r.acc = 0#64) :
+    C06.noLaneRun nl_cdna3_runVCmpFU64 u vcc = some 0#64 ∧ (lh_cdna3_runVCmpFU64_const.raw u r).acc = 0#64 := by
+  have hok : nl_cdna3_runVCmpFU64.ok u = true := rfl
+  refine ⟨?_, ?_⟩
+  · simp only [C06.noLaneRun, hok, if_true, nl_cdna3_runVCmpFU64_facts.2.2, Option.getD_some]
+  · show setBit r.acc r.i ((0#64).getLsbD r.i) = 0#64
+    rw [h]
+    apply BitVec.eq_of_getLsbD_eq
+    intro j hj
+    simp [C06.setBit]
+
+example : C06.noLaneRun nl_cdna3_runVCmpFU64 C06.Uni.zero 0xFFFF#64 = some 0#64 := by decide +kernel
+
 /-- **`v_readfirstlane_b32` reads the lane the ISA names**: the lane both ALUs' scan loop
     (`for i := 0; i < 64; i++ { if exec&(1<<i) == 0 { continue }; laneid = i; break }`, hand-transcribed by C06 as
     `C06.rflScan`, hash-pinned) selects is `C03V.firstLane` of the specification — the lowest set EXEC bit, lane 0
